@@ -373,15 +373,14 @@ func BestArchiveOf(l wsp.Layout, from int64) int {
 
 func runC17(c *fw.Ctx) {
 	scs := c17Scenarios(c)
-	for i, sc := range scs {
-		if i%c.Of != c.Shard {
-			continue
-		}
+	for _, sc := range scs {
 		if only := os.Getenv("VERIF_ONLY"); only != "" && only != sc.Name {
 			continue
 		}
 		ExploreScenario(c, "C17", sc)
-		c.Sample(4, map[string]any{"scenario": sc.Name, "preemption_bound": sc.Bound, "coverage": c.R.Bounds["scenario:"+sc.Name]})
+		if c.Shard == 0 {
+			c.Sample(4, map[string]any{"scenario": sc.Name, "preemption_bound": sc.Bound, "coverage": c.R.Bounds["scenario:"+sc.Name]})
+		}
 	}
 	if c.Shard == c.Of-1 {
 		RacePass(c, "C17")
